@@ -50,13 +50,13 @@ def load_configs(draw, small, allow_python=True):
         cfg['accelerator'] = draw(st.sampled_from(['auto', 'auto', 'none', 'rom']))
         cfg['accelerate-dec-a'] = draw(st.integers(0, 3))
     if draw(st.integers(0, 3)) == 0:
-        cfg['pause'] = draw(st.integers(0, 1))
+        cfg['pause'] = 1      # pause=0 (tape never waits for the loader) is C13's subject: it may legitimately fail to load
     if draw(st.integers(0, 4)) == 0:
         cfg['cmio'] = 1
     if draw(st.integers(0, 4)) == 0:
         cfg['polarity'] = 1
     if draw(st.integers(0, 4)) == 0:
-        cfg['first-edge'] = draw(st.sampled_from([0, -2168, 1000, 3000]))
+        cfg['first-edge'] = draw(st.sampled_from([0, 1, 1000, 3000]))
     if allow_python and (fast or small) and draw(st.integers(0, 5)) == 0:
         cfg['python'] = 1
     return cfg
@@ -204,7 +204,7 @@ def run_tap2sna(s, case, tape, load, outname='out.szx', capture=False):
     argv = ['--start', case['start']]
     for k, v in load.items():
         argv += ['-c', '%s=%s' % (k, v)]
-    argv += ['-c', 'timeout=%d' % (90 if case['kind'] == '48' and case.get('n', 0) <= 2000 else 600)]
+    argv += ['-c', 'timeout=%d' % (90 if case['kind'] == '48' and case.get('n', 0) <= 2000 else 1800)]   # Z80 seconds of tape time; a full 128K tape runs for ~13 minutes
     out = s.path(outname)
     orig = tap2sna.get_state
     if capture:
